@@ -366,6 +366,9 @@ func checkContainerPath(spec *kit.Spec, m *Model, ce *godi.CircularDependencyErr
 	return nil
 }
 
+// c05OnlyClause: when set (C15 re-uses the enumeration) only this clause is reported.
+var c05OnlyClause string
+
 func c05Containers(r *mc.Report, n int, uniform bool, lifes []string, shard, nshards int) {
 	run := func(c c05ContCase) {
 		var fs []Finding
@@ -377,6 +380,12 @@ func c05Containers(r *mc.Report, n int, uniform bool, lifes []string, shard, nsh
 		r.Transitions += int64(len(e.Results) + 1)
 		fs = append(fs, genericFindings(nil, s)...)
 		for _, f := range fs {
+			if c05OnlyClause != "" {
+				if f.F["clause"] != c05OnlyClause {
+					continue
+				}
+				f.F["clause"] = "circular-not-classifiable"
+			}
 			r.Violate(f.F, f.Detail+fmt.Sprintf("\n  services=%d edges=%v target-forms=%v shape=%s lifetime=%s optional=%v reversed-registration=%v", c.N, adjOf(c.N, c.Mask, false), c.Target, c.Shape, c.Life, c.Opt, c.Rev), c)
 		}
 		v := "ok"
@@ -454,7 +463,7 @@ var _ = graph.NewDependencyGraph
 func init() {
 	mc.Register(&mc.Check{
 		Prop:        "C05",
-		Rule:        "graph component: ALL 2^16 digraphs on 4 labelled nodes (self-loops included; all 2^9 on 3 nodes too) x {AddProviderDeferred all + DetectCycles (asked twice), AddProvider one by one} x dependency-list order {ascending, descending} x canonical / reversed base map order, plus every single non-identity permutation of one map range (order deviation 1) for all 3-node graphs (quick) / additionally all 4-node graphs with deferred adds and ascending lists (thorough); verdicts compared with a colour-DFS on the plain digraph, reported paths checked edge by edge. Container: all digraphs on <=3 services x every per-target dependency form (plain / keyed / group; In-struct and positional consumers; In-struct also with every non-group edge declared optional, and with the registrations made in ascending and descending order, so that consumers are registered before and after what they consume) x 3 uniform lifetimes, and all digraphs on 4 services x uniform forms; Build verdict, error class through BuildError, reported path, and termination of resolving every identity. distinct = distinct (size, forms, verdict) classes.",
+		Rule:        "graph component: ALL 2^16 digraphs on 4 labelled nodes (self-loops included; all 2^9 on 3 nodes too) x {AddProviderDeferred all + DetectCycles (asked twice), AddProvider one by one} x dependency-list order {ascending, descending} x canonical / reversed base map order, plus every single non-identity permutation of one map range (order deviation 1) for all 3-node graphs (quick) / additionally all 4-node graphs with deferred adds and ascending lists (thorough); verdicts compared with a colour-DFS on the plain digraph, reported paths checked edge by edge. Container: all digraphs on <=3 services x every per-target dependency form (plain / keyed / group; In-struct and positional consumers; In-struct also with every non-group edge declared optional, and with the registrations made in ascending and descending order, so that consumers are registered before and after what they consume) x 3 uniform lifetimes, and all digraphs on 4 services x uniform forms; Build verdict, error class through BuildError, reported path, and termination of resolving every identity; plus cycles running through a two-output registration (multiple returns / result object / two aliases x plain / keyed / group edge x lifetime) one of whose outputs was removed before Build. distinct = distinct (size, forms, verdict) classes.",
 		Assume:      []string{"the property's 'randomly beyond 4 nodes' part is not covered: the claim is all graphs with <= 4 nodes"},
 		MinOutcomes: 4,
 		Jobs: func(tier string) []mc.Job {
@@ -475,6 +484,7 @@ func init() {
 				}
 			}
 			lifes := []string{"scoped", "singleton", "transient"}
+			jobs = append(jobs, mc.Job{Name: "c05-multi-output-remove", Run: c05MultiRemove})
 			jobs = append(jobs, mc.Job{Name: "c05-cont2", Run: func(r *mc.Report) { c05Containers(r, 2, false, lifes, 0, 1) }})
 			for sh := 0; sh < 8; sh++ {
 				sh := sh
@@ -536,4 +546,124 @@ func c19DAGs(r *mc.Report, n int, shard, nshards int) {
 		}
 	}
 	r.Outcome(fmt.Sprintf("DAGs n=%d shard %d/%d: %d edge sets x %d relabellings", n, shard, nshards, len(masks), len(permutations(n))))
+}
+
+// c05MultiRemove: cycles that run through a multi-output registration one of whose outputs was
+// removed before Build. The registration (two outputs: multiple returns / result object / two
+// aliases) consumes service Z through a plain, keyed or group dependency; Z depends on one of the
+// two outputs; then none / the first / the second output is removed. As long as the output Z needs
+// is still registered the set is cyclic and Build must say so.
+type c05MRCase struct {
+	Form   string `json:"form"`   // multi | resobj | alias2
+	Via    string `json:"via"`    // plain | keyed | group
+	ZNeeds int    `json:"z_needs"`
+	Remove string `json:"remove"` // none | first | second
+	Life   string `json:"life"`
+}
+
+func c05MultiRemove(r *mc.Report) {
+	run := func(c c05MRCase) {
+		r0 := kit.Reg{ID: 0, Life: c.Life, In: true}
+		var ids []Ident
+		switch c.Form {
+		case "multi":
+			r0.Outs = []kit.Out{{T: "P0"}, {T: "P1"}}
+			ids = []Ident{{T: "P0"}, {T: "P1"}}
+		case "resobj":
+			r0.ResObj = true
+			r0.Outs = []kit.Out{{T: "P0"}, {T: "P1", Key: "k1"}}
+			ids = []Ident{{T: "P0"}, {T: "P1", Key: "k1"}}
+		case "alias2":
+			r0.Outs = []kit.Out{{T: "D2"}}
+			r0.As = []string{"IA", "IB"}
+			ids = []Ident{{T: "IA"}, {T: "IB"}}
+		}
+		z := kit.Reg{ID: 1, Life: c.Life, In: true, Outs: []kit.Out{{T: "P2"}}, Deps: []kit.Dep{{T: ids[c.ZNeeds].T, Key: ids[c.ZNeeds].Key}}}
+		zd := kit.Dep{T: "P2"}
+		switch c.Via {
+		case "keyed":
+			z.Name = "kz"
+			zd.Key = "kz"
+		case "group":
+			z.Group = "gz"
+			zd.Group = "gz"
+		}
+		r0.Deps = []kit.Dep{zd}
+		spec := kit.Spec{Regs: []kit.Reg{r0, z}}
+		removed := -1
+		switch c.Remove {
+		case "first":
+			removed = 0
+		case "second":
+			removed = 1
+		}
+		if removed == c.ZNeeds {
+			return // Z's dependency is gone: a missing dependency, not a cycle (C08's subject)
+		}
+		var e *Env
+		s := seqOnce(func() {
+			e = NewEnv(&spec)
+			e.Coll = godiNewCollection()
+			for i := range spec.Regs {
+				e.AddErrs = append(e.AddErrs, e.W.Add(e.Coll, &spec.Regs[i]))
+			}
+			if removed >= 0 {
+				if ids[removed].Key == "" {
+					e.Coll.Remove(kit.TypeOf(ids[removed].T))
+				} else {
+					e.Coll.RemoveKeyed(kit.TypeOf(ids[removed].T), ids[removed].Key)
+				}
+			}
+			p, did := kit.Try(func() { e.Prov, e.BuildErr = e.Coll.Build() })
+			if did {
+				e.BuildPanic = p
+			}
+			if e.Prov != nil {
+				e.Prov.Close()
+			}
+		})
+		r.Executions++
+		r.Validated++
+		r.States++
+		r.Transitions += 4
+		var fs []Finding
+		var ce *godi.CircularDependencyError
+		switch {
+		case e.BuildPanic != nil:
+			fs = append(fs, Finding{feat("clause", "build-panic"), fmt.Sprint(e.BuildPanic)})
+		case e.BuildErr == nil:
+			fs = append(fs, Finding{feat("clause", "cycle-accepted", "edge-forms", c.Via, "component", "container", "multi-output", c.Form, "removed", c.Remove),
+				fmt.Sprintf("Build accepted a cyclic set: the %s registration consumes P2 (%s), P2 needs its output %d", c.Form, c.Via, c.ZNeeds)})
+		case !errors.As(e.BuildErr, &ce):
+			fs = append(fs, Finding{feat("clause", "cycle-wrong-error", "edge-forms", c.Via, "class", kit.ClassOf(e.BuildErr), "multi-output", c.Form),
+				fmt.Sprintf("cyclic set rejected, but not with a circular-dependency error: %v", firstLine(e.BuildErr.Error()))})
+		}
+		fs = append(fs, genericFindings(nil, s)...)
+		v := "ok"
+		if e.BuildErr != nil {
+			v = kit.ClassOf(e.BuildErr)
+		}
+		r.Outcome(fmt.Sprintf("multi-output cycle %s/%s verdict=%s", c.Form, c.Via, v))
+		for _, f := range fs {
+			r.Violate(f.F, f.Detail+fmt.Sprintf("\n  form %s, dependency via %s, P2 needs output %d, removed output: %s, lifetime %s", c.Form, c.Via, c.ZNeeds, c.Remove, c.Life), c)
+		}
+	}
+	if r.Only != nil {
+		var c c05MRCase
+		if json.Unmarshal(r.Only, &c) == nil && c.Form != "" && c.Via != "" {
+			run(c)
+		}
+		return
+	}
+	for _, form := range []string{"multi", "resobj", "alias2"} {
+		for _, via := range []string{"plain", "keyed", "group"} {
+			for zn := 0; zn < 2; zn++ {
+				for _, rm := range []string{"none", "first", "second"} {
+					for _, life := range []string{"scoped", "transient", "singleton"} {
+						run(c05MRCase{Form: form, Via: via, ZNeeds: zn, Remove: rm, Life: life})
+					}
+				}
+			}
+		}
+	}
 }
